@@ -14,7 +14,7 @@ from typing import Dict, List, Optional, Tuple
 import common
 import spec as S
 
-GEN_VERSION = "10"
+GEN_VERSION = "11"
 
 STRUM_DERIVES = ["EnumString", "Display", "AsRefStr", "IntoStaticStr", "VariantNames", "EnumIter", "EnumCount", "FromRepr",
                  "VariantArray", "EnumDiscriminants", "EnumIs", "EnumTryAs", "EnumMessage", "EnumProperty", "EnumTable",
@@ -325,7 +325,12 @@ def family_strings(rng: random.Random, count: int, start: int) -> List[E]:
                 if fields and flag not in ("transparent", "default") and kind != "t1ref":
                     have_placeholder = True
                     if vk == "tuple":
-                        ph = " ".join(["{%d}" % q if q % 2 == 0 else "{%d:>4}" % q for q in range(len(fields))])
+                        order = list(range(len(fields)))
+                        if (i + j) % 3 == 1:
+                            order = order[::-1]                      # descending: {2} {1} {0}
+                        elif (i + j) % 3 == 2 and len(order) > 1:
+                            order = order[1:] + order[:1] + order[-1:]   # rotated with a repeated index
+                        ph = " ".join(["{%d}" % q if q % 2 == 0 else "{%d:>4}" % q for q in order])
                     else:
                         ph = " ".join(["{%s}" % n if q % 2 == 0 else "{%s:03}" % n for q, (n, _t) in enumerate(fields)][: max(1, len(fields) - (1 if len(fields) > 2 else 0))])
                         # a named variant may leave fields unused
